@@ -16,10 +16,10 @@ CONSTANTS
   MaxOps = 30
   MaxTampers = 1
   MaxBudgetOps = 0
-  MaxDisc = 1
+  MaxDisc = 0
   CutReads = TRUE
-  CutHandshake = TRUE
-  EmitEvery = 1
+  CutHandshake = FALSE
+  EmitEvery = 2
 CONSTRAINT Bound
 VIEW View
 INVARIANT ExactDelivery
